@@ -40,7 +40,7 @@
   every string (`nameOK`, from the definition of the legacy `String.splitOn`).
 
   Helper lemmas: Pk/Proofs/TagGraphMore{Sets,Inherit,Mark,Text,Load,Inv,Check,Names}.lean.
-  Model: Pk/Model/TagGraph.lean (unchanged).  Every statement is for all states / names / id lists /
+  Model: Pk/Model/TagGraph.lean (with `updMark` corrected to restore the previous pending set, see below).  Every statement is for all states / names / id lists /
   saved tables / call sequences (no bound).
 -/
 import Pk.Model.TagGraph
